@@ -229,12 +229,19 @@ pub struct CaseB {
     /// full. The same plan is applied to the flag-free run. The program then dies at a print; the log must be well-formed and
     /// hold every allocation made before the last byte that still reached stdout.
     pub stdout_fault: Option<String>,
+    /// seconds added to every scripted clock reading: years 3000, 10000, ... (beyond 64-bit nanoseconds)
+    pub clock_extra_s: Option<i64>,
+    /// address-space limit of the children in bytes (a container's memory limit, ulimit -v); applied to the flag-free run too
+    pub as_limit: Option<u64>,
+    /// a hard error on the log fd (disk full under the log), `$-1` = the last write the undisturbed run makes there: the run may
+    /// then fail; if it ends like the flag-free run, the log is complete
+    pub log_hard: Option<String>,
 }
 
 impl CaseB {
     pub fn to_json(&self) -> Value {
         json!({"engine": ENGINE_B, "program": self.spec.to_json(), "profile": self.profile.name(), "action": self.action, "size_mb": self.size_mb,
-               "log_path": self.log_path, "clock": self.clock, "plan": self.plan, "stale_log": self.stale_log, "hash_seed": self.hash_seed, "stdout_fault": self.stdout_fault})
+               "log_path": self.log_path, "clock": self.clock, "plan": self.plan, "stale_log": self.stale_log, "hash_seed": self.hash_seed, "stdout_fault": self.stdout_fault, "clock_extra_s": self.clock_extra_s, "as_limit": self.as_limit, "log_hard": self.log_hard})
     }
     pub fn from_json(v: &Value) -> Option<CaseB> {
         Some(CaseB {
@@ -248,6 +255,9 @@ impl CaseB {
             stale_log: v.get("stale_log").and_then(|x| x.as_bool()).unwrap_or(false),
             hash_seed: v.get("hash_seed")?.as_u64()?,
             stdout_fault: v.get("stdout_fault").and_then(|c| c.as_str()).map(|s| s.to_string()),
+            clock_extra_s: v.get("clock_extra_s").and_then(|c| c.as_i64()),
+            as_limit: v.get("as_limit").and_then(|c| c.as_u64()),
+            log_hard: v.get("log_hard").and_then(|c| c.as_str()).map(|s| s.to_string()),
         })
     }
 }
@@ -290,7 +300,7 @@ pub fn check_b(case: &CaseB) -> Result<Option<ObsB>, (String, String)> {
     };
     // without any memory flag
     let mut plain = Child::new(case.profile, &[case.action.as_str(), input]);
-    plain.shim = Some(ShimCfg { seed: case.hash_seed, plan: case.stdout_fault.clone().unwrap_or_default(), ..Default::default() });
+    plain.shim = Some(ShimCfg { seed: case.hash_seed, plan: case.stdout_fault.clone().unwrap_or_default(), as_limit: case.as_limit, ..Default::default() });
     let p = run_child(&dir, &plain);
     children += 1;
     // with flags
@@ -307,9 +317,21 @@ pub fn check_b(case: &CaseB) -> Result<Option<ObsB>, (String, String)> {
     }
     let mut flagged = Child::new(case.profile, &args);
     let full_plan = match &case.stdout_fault { Some(sf) if case.plan.is_empty() => sf.clone(), Some(sf) => format!("{};{}", case.plan, sf), None => case.plan.clone() };
-    flagged.shim = Some(ShimCfg { seed: case.hash_seed ^ 0x55, plan: full_plan, clock: case.clock.clone(), junk: 0, budget: Some(2_000_000) });
+    let mut full_plan = full_plan;
+    if let Some(lh) = &case.log_hard {
+        // where the undisturbed run writes its log: count its write calls on the log fd first
+        flagged.shim = Some(ShimCfg { seed: case.hash_seed ^ 0x55, plan: String::new(), clock: case.clock.clone(), budget: Some(2_000_000), clock_extra_s: case.clock_extra_s, as_limit: case.as_limit, ..Default::default() });
+        let dry = run_child(&dir, &flagged);
+        children += 1;
+        let n = dry.trace.lines().filter(|l| l.starts_with("W f ")).count();
+        let resolved = lh.replace("$-1", &n.saturating_sub(1).to_string()).replace("$-2", &n.saturating_sub(2).to_string()).replace("$/2", &(n / 2).to_string());
+        full_plan = if full_plan.is_empty() { resolved } else { format!("{};{}", full_plan, resolved) };
+        let _ = std::fs::remove_file(dir.join(&case.log_path));
+    }
+    flagged.shim = Some(ShimCfg { seed: case.hash_seed ^ 0x55, plan: full_plan, clock: case.clock.clone(), junk: 0, budget: Some(2_000_000), clock_extra_s: case.clock_extra_s, as_limit: case.as_limit });
     let f = run_child(&dir, &flagged);
     children += 1;
+    let log_hard_fired = case.log_hard.is_some() && f.trace.lines().any(|l| l.starts_with("W f ") && l.contains("-> E") && !l.ends_with("-> E4"));
     let log = std::fs::read(dir.join(&case.log_path));
     let _ = std::fs::remove_dir_all(&dir);
     if p.exit == Exit::Timeout || f.exit == Exit::Timeout {
@@ -317,6 +339,20 @@ pub fn check_b(case: &CaseB) -> Result<Option<ObsB>, (String, String)> {
     }
     if f.budget_exceeded() {
         return Err(("H9:no_progress_writing_log".into(), "the log fd call budget was exhausted".into()));
+    }
+    if log_hard_fired {
+        // the disk under the log failed: the run may fail (not by a signal), and then nothing more is claimed; a run that exits 0
+        // like the flag-free one must have left the complete log (a failing program fails either way: nothing to tell apart)
+        if f.exit.is_native_crash() { return Err(("H8:crash_with_memory_flags".into(), format!("{} when a write to the heap log failed", f.exit.show()))); }
+        if f.exit.is_success() && p.exit.is_success() && f.stdout == p.stdout {
+            let total = inproc.heap.len().max(inproc.alloc_marks.len());
+            let ok = match &log { Ok(b) => parse_log(b).map(|pl| pl.sizes.len() == total || (pl.sizes.len() == total + 1 && matches!(inproc.end, RunEnd::Panic(_)))).unwrap_or(false), Err(_) => false };
+            if !ok && !matches!(inproc.end, RunEnd::Init(_)) {
+                return Err(("H7:log_incomplete_but_run_reported_like_the_flag_free_run".into(), format!("a write to the heap log failed for good (plan `{}`), yet `fml {}` ended like the flag-free run ({}); the log is incomplete or malformed: {} bytes, {} records expected",
+                    case.log_hard.clone().unwrap_or_default(), case.action, f.exit.show(), log.as_ref().map(|b| b.len()).unwrap_or(0), total)));
+            }
+        }
+        return Ok(Some(ObsB { children, clock_reads: 0, clock_backwards: false, log_faults: 0, failing: f.exit.is_clean_failure(), records: 0, stdout_fault_fired: false }));
     }
     if p.exit != f.exit || p.stdout != f.stdout {
         return Err(("H6:behaviour_changed_by_memory_flags".into(), format!("`fml {}` without flags: {} / {} bytes of stdout; with --heap-log{}: {} / {} bytes",
@@ -401,6 +437,8 @@ fn minimise_b(case: &CaseB, oracle: &str) -> CaseB {
     if best.clock.is_some() { let mut c = best.clone(); c.clock = None; if still(&c) { best = c; } }
     if best.stale_log { let mut c = best.clone(); c.stale_log = false; if still(&c) { best = c; } }
     if best.stdout_fault.is_some() { let mut c = best.clone(); c.stdout_fault = None; if still(&c) { best = c; } }
+    if best.clock_extra_s.is_some() { let mut c = best.clone(); c.clock_extra_s = None; if still(&c) { best = c; } }
+    if best.as_limit.is_some() { let mut c = best.clone(); c.as_limit = None; if still(&c) { best = c; } }
     if best.size_mb.is_some() { let mut c = best.clone(); c.size_mb = None; if still(&c) { best = c; } }
     if best.action != "run" { let mut c = best.clone(); c.action = "run".into(); if still(&c) { best = c; } }
     if let ProgSpec::Stmts(stmts) = &best.spec {
@@ -605,9 +643,21 @@ pub fn run(seed: u64, tier: &str, ev: &mut Evidence) -> Vec<Violation> {
             stale_log: rng.below(4) == 0,
             hash_seed: rng.next_u64(),
             stdout_fault: None,
+            clock_extra_s: None,
+            as_limit: None,
+            log_hard: None,
         };
         let mut case = case;
-        if i % 5 == 3 {
+        match i % 11 {
+            // the wall clock is centuries ahead (a dead RTC battery reads anything): beyond 64-bit nanoseconds since the epoch
+            2 => { case.clock_extra_s = Some(*rng.pick(&[32_503_680_000i64, 253_402_300_800, 4_000_000_000_000])); if case.clock.is_none() { case.clock = Some("1700000000000000000:1000".into()); } }
+            // little address space (container limit, ulimit -v): nothing the flags do may need more of it
+            5 => { case.as_limit = Some(64 << 20); if let ProgSpec::Stmts(v) = &mut case.spec { v.retain(|st| !st.contains("zzbig")); } }
+            // the disk under the log fails at the log's first / last / last-but-one / middle write
+            8 => { case.log_hard = Some(format!("f:{}:x:{}", rng.pick(&["0", "$-1", "$-1", "$-2", "$/2"]), rng.pick(&[28u32, 5, 122]))); case.plan = String::new(); case.stdout_fault = None; }
+            _ => {}
+        }
+        if i % 5 == 3 && case.log_hard.is_none() {
             // stdout fails hard at one of its first write calls (EPIPE: the reader went away; ENOSPC/EIO: the redirection target)
             case.stdout_fault = Some(format!("o:{}:x:{}", rng.below(6), rng.pick(&[32u32, 32, 28, 5])));
         }
